@@ -42,6 +42,8 @@ def call_name(call):
 
 
 def attr_name(call):
+    if not isinstance(call, ast.Call):
+        return ''
     return call.func.attr if isinstance(call.func, ast.Attribute) else (
         call.func.id if isinstance(call.func, ast.Name) else '')
 
